@@ -7,6 +7,7 @@ import LinOp.C07.Model
   den  <op…> <params>                    → denote o θ                        (flat, row-major)
   dden <op…> <params> <delta>            → dDenote o θ δ  (ε-part of ⟦o⟧(θ+εδ)), flat
   dbil <d> <op…> <params> <delta> <U> <V>→ `pair o (bilinDeriv o θ U V) δ` and `bil (dDenote o θ δ) U V`
+  bsum <K> <pi> <g>                      → bcastSum π g  (gradient of a broadcast parameter: sum over the members reading an entry)
   slots <op…>                            → kinds of representation() / of the gradient tuple
 
 Operator trees (prefix): dense n m | diag n | cdiag n | toep n | cmul O | mm A B | sum A B | mul A B |
@@ -211,6 +212,15 @@ def run (line : String) : String :=
         showRat (pair o (bilinDeriv o θ U V) δ) ++ " " ++ showRat (bil (dDenote o θ δ) U V)
       | _, _, _, _ => "bad-op"
     | _, _ => "bad-op"
+  | ["bsum", k, pi, g] =>
+    match k.toNat?, parseNats? pi, parseRats? g with
+    | some k, some pi, some g =>
+      if h : 0 < k then
+        if pi.length ≠ g.length then "bad-shape" else
+        let pa := pi.toArray; let ga := g.toArray
+        showRats (flatVec (bcastSum (B := g.length) (K := k) (fun b => ⟨pa[b.1]! % k, Nat.mod_lt _ h⟩) (fun b => ga[b.1]!)))
+      else "bad-op"
+    | _, _, _ => "bad-op"
   | "slots" :: rest =>
     match parseOp (rest.length + 1) rest with
     | some (⟨_, _, o⟩, []) =>
